@@ -81,6 +81,12 @@ def load_functions(path):
                 fns.setdefault(cm.group(1), []).append((header, lines[i + 1:j]))
                 i = j + 1
                 continue
+            om = re.match(r"^const (\w+): (.+?) = (const .+);$", line)
+            if om:
+                # a constant printed on one line: `const NAME: &str = const "..";`
+                header = f"fn {om.group(1)}() -> {om.group(2)} {{"
+                body = [f"    let mut _0: {om.group(2)};", "", "    bb0: {", f"        _0 = {om.group(3)};", "        return;", "    }"]
+                fns.setdefault(om.group(1), []).append((header, body))
             i += 1
             continue
         # find end: a line that is exactly "}"
@@ -236,10 +242,16 @@ def parse_rvalue(s):
         return ("ptrmeta", parse_operand(m.group(2)))
     if s.startswith("&mut "):
         return ("ref", parse_place(s[5:]), True)
+    if s.startswith("&raw const (fake) "):
+        # a fake raw borrow: only ever the operand of PtrMetadata (the length of a slice for a bounds check)
+        return ("ref", parse_place(s[len("&raw const (fake) "):].strip()), False)
     if s.startswith("&raw "):
         raise Unsupported("raw pointers: " + s)
     if s.startswith("&"):
         return ("ref", parse_place(s[1:].strip()), False)
+    fp = re.match(r"^([\w:]+(?:::<.*?>)?) as .*\(PointerCoercion\(ReifyFnPointer\(\w+\), \w+\)\)$", s)
+    if fp:
+        return ("use", ("const", "fn-item: " + fp.group(1)))  # a function item coerced to a fn pointer
     if s.startswith("copy ") or s.startswith("move ") or s.startswith("const ") or s.startswith("no_retag copy "):
         # possibly a cast: `copy _3 as usize (IntToInt)`
         cm = re.match(r"^(.*) as (.+?) \((\w+)(?:\(.*\))?\)$", s)
@@ -269,7 +281,7 @@ def parse_rvalue(s):
             fm = re.match(r"^(\w+): (.*)$", part)
             fields.append((fm.group(1), parse_operand(fm.group(2))))
         return ("struct", m.group(1), fields)
-    m = re.match(r"^([\w:<>, &'\[\]\(\)]+?)\((.*)\)$", s)
+    m = re.match(r"^([\w:<>, &';\[\]\(\)]+?)\((.*)\)$", s)
     if m:
         return ("variant", m.group(1), [parse_operand(p) for p in split_top(m.group(2))])
     if re.fullmatch(r"[\w:<>, &'\[\]\(\);]+", s) and ("::" in s or re.fullmatch(r"[A-Z]\w*", s)):
